@@ -1,6 +1,6 @@
 #!/bin/bash
 cd /verif
 rm -f /tmp/bd.txt /tmp/matrix_detail.txt
-MATRIX_DETAIL=/tmp/bd.txt PAR=8 scripts/benign_matrix.sh benign/*.diff
+MATRIX_DETAIL=/tmp/bd.txt PAR=8 scripts/benign_matrix.sh benign/*.diff benign-additions/*.diff
 scripts/mutants_all.sh
 MATRIX_DETAIL=/tmp/matrix_detail.txt scripts/seeded_matrix.sh
